@@ -22,6 +22,12 @@ static void rec_verify(const char *kind, const unsigned char *sig, const unsigne
     unsigned char *sm = malloc(mlen + 64), *out = malloc(mlen + 64); unsigned long long ol = 777; memcpy(sm, sig, 64); memcpy(sm + 64, m, mlen);
     int r2 = crypto_sign_open(out, &ol, sm, mlen + 64, pk);
     int open_ok = r2 == 0 ? (ol == mlen && memcmp(out, m, mlen) == 0) : (ol == 0);
+    /* every other way of calling the opener must reach the same verdict: verify-only (m == NULL, with and without the length
+     * output), in place (m == sm) */
+    { unsigned long long ol3 = 777; int r3 = crypto_sign_open(NULL, &ol3, sm, mlen + 64, pk), r4 = crypto_sign_open(NULL, NULL, sm, mlen + 64, pk);
+      unsigned char *ip = malloc(mlen + 64); memcpy(ip, sm, mlen + 64); unsigned long long ol5 = 777; int r5 = crypto_sign_open(ip, &ol5, ip, mlen + 64, pk);
+      if ((r3 == 0) != (r1 == 0) || (r4 == 0) != (r1 == 0) || (r5 == 0) != (r1 == 0) || (r3 == 0 && ol3 != mlen) || (r5 == 0 && (ol5 != mlen || (mlen && memcmp(ip, m, mlen))))) r2 = r1 == 0 ? -1 : 0;
+      free(ip); }
     fprintf(v_out, "{\"op\":\"verify\",\"ph\":false,\"kind\":\"%s\",\"honest\":%s,", kind, honest ? "true" : "false"); v_emit_bytes("sig", sig, 64); fputc(',', v_out); v_emit_bytes("m", m, mlen); fputc(',', v_out); v_emit_bytes("pk", pk, 32);
     fprintf(v_out, ",\"accepted\":%s,\"open_agrees\":%s,\"open_ok\":%s}\n", r1 == 0 ? "true" : "false", (r1 == 0) == (r2 == 0) ? "true" : "false", open_ok ? "true" : "false");
     free(sm); free(out);
